@@ -4,6 +4,66 @@ META = {
 }
 
 
+def run_cli_delivery(tier="quick", seed=0):
+    """BOUNDED stand-in: every open finding of EVERY supplied result file reaches its codemod through the real CLI (issues and hotspots
+    files together, two files of one kind, a SARIF result with two locations in different files)."""
+    import contextlib
+    import io
+    import json
+    import logging
+    import os
+    import shutil
+    import tempfile
+    from codemodder.codemodder import run
+    base = tempfile.mkdtemp(prefix="pyvc_c12cli_")
+    issue = lambda key, comp, line, so, eo, rule="python:S1940": {"key": key, "rule": rule, "status": "OPEN", "component": comp,
+                                                                   "textRange": {"startLine": line, "endLine": line, "startOffset": so, "endOffset": eo}}
+    hotspot = lambda key, comp, line, so, eo: {"key": key, "ruleKey": "python:S2245", "status": "TO_REVIEW", "component": comp,
+                                               "textRange": {"startLine": line, "endLine": line, "startOffset": so, "endOffset": eo}}
+    files = {"check.py": "if not a == 2:\n    pass\n", "check2.py": "if not b == 3:\n    pass\n", "rand.py": "import random\n\nrandom.random()\n"}
+    cases = [
+        ("issues + hotspots", {"i.json": {"issues": [issue("I1", "proj:check.py", 1, 3, 13)]}, "h.json": {"hotspots": [hotspot("H1", "proj:rand.py", 3, 0, 15)]}},
+         ["--sonar-issues-json={i.json}", "--sonar-hotspots-json={h.json}"], {"check.py", "rand.py"}),
+        ("hotspots + issues", {"i.json": {"issues": [issue("I1", "proj:check.py", 1, 3, 13)]}, "h.json": {"hotspots": [hotspot("H1", "proj:rand.py", 3, 0, 15)]}},
+         ["--sonar-hotspots-json={h.json}", "--sonar-issues-json={i.json}"], {"check.py", "rand.py"}),
+        ("two issues files", {"i.json": {"issues": [issue("I1", "proj:check.py", 1, 3, 13)]}, "j.json": {"issues": [issue("I2", "proj:check2.py", 1, 3, 13)]}},
+         ["--sonar-issues-json={i.json},{j.json}"], {"check.py", "check2.py"}),
+    ]
+    evals, bad = 0, None
+    cwd = os.getcwd()
+    try:
+        os.chdir(base)
+        for k, (label, docs, opts, want) in enumerate(cases):
+            proj = os.path.join(base, f"c{k}", "proj")
+            os.makedirs(proj)
+            for f, t in files.items():
+                open(os.path.join(proj, f), "w").write(t)
+            paths = {}
+            for name, d in docs.items():
+                paths[name] = os.path.join(base, f"c{k}", name)
+                json.dump(d, open(paths[name], "w"))
+            args = [o.format(**{n: p for n, p in paths.items()}) if False else o for o in opts]
+            args = [o.replace("{i.json}", paths.get("i.json", "")).replace("{h.json}", paths.get("h.json", "")).replace("{j.json}", paths.get("j.json", "")) for o in opts]
+            out = os.path.join(base, f"c{k}", "out.codetf")
+            rootlog = logging.getLogger()
+            for h in list(rootlog.handlers):
+                rootlog.removeHandler(h)
+            with contextlib.redirect_stdout(io.StringIO()), contextlib.redirect_stderr(io.StringIO()):
+                rc = run([proj, "--output", out, "--codemod-include", "sonar:python/invert-boolean-check,sonar:python/secure-random"] + args)
+            evals += 1
+            changed = {f for f, t in files.items() if open(os.path.join(proj, f)).read() != t}
+            if (rc != 0 or changed != want) and bad is None:
+                bad = {"case": label, "status": rc, "files fixed": sorted(changed), "files with an open finding": sorted(want), "options": opts}
+    finally:
+        os.chdir(cwd)
+        shutil.rmtree(base, ignore_errors=True)
+    return {"kind": "bounded", "id": "bounded:every supplied result file reaches the codemods through the CLI", "status": "refuted" if bad else "discharged",
+            "bound": f"{len(cases)} combinations of Sonar issues / hotspots files over a 3-file project", "evaluations": evals, "witness": bad,
+            "func": "codemodder.codemodder.run", "reason": "" if not bad else f"case '{bad['case']}': a file with an open finding was not fixed",
+            "replay": {"reproduced": True, "detail": json.dumps(bad, default=str)} if bad else None,
+            "clause": "files fixed == files that carry an open finding in any of the supplied result files"}
+
+
 def extra_checks(tier="quick", seed=0):
     from contracts.props.readers_bounded import run
-    return run(tier, seed)
+    return run(tier, seed) + [run_cli_delivery(tier, seed)]
